@@ -347,7 +347,13 @@ func (in *Interp) xmlUnmarshal(content *smt.Term, target Value, charsetReader bo
 		return in.opaqueError("xml-unmarshal-nonpointer")
 	}
 	d := in.lookupDoc(content)
-	if d == nil || d.Root == nil || (d.OtherEncoding && !charsetReader) {
+	if d == nil {
+		// arbitrary bytes (e.g. a compressed stream tried as XML): the decoder fails, but only after it has decoded
+		// whatever well-formed prefix the bytes happen to start with
+		in.xmlPartialHavoc(tp, pt.Elem())
+		return in.opaqueError("xml-unmarshal")
+	}
+	if d.Root == nil || (d.OtherEncoding && !charsetReader) {
 		return in.opaqueError("xml-unmarshal")
 	}
 	um := &xmlm{in: in}
@@ -355,6 +361,48 @@ func (in *Interp) xmlUnmarshal(content *smt.Term, target Value, charsetReader bo
 		return in.opaqueError("xml-unmarshal:" + um.why)
 	}
 	return nilError()
+}
+
+// xmlPartialHavoc: a failing Unmarshal of bytes that are not a well-formed document may already have filled in
+// fields of the destination: its string fields become arbitrary, a nil pointer-to-struct field may have been
+// allocated and filled.
+func (in *Interp) xmlPartialHavoc(tp *Ptr, T types.Type) {
+	if _, ok := T.Underlying().(*types.Struct); !ok {
+		return
+	}
+	in.X.noteAssumption("a failing xml.Unmarshal of bytes that are not a well-formed document may already have filled in the destination (the prefix it could decode): string fields arbitrary, nil pointer-to-struct fields possibly allocated")
+	n := intGhost(in, "xmlpartial.n")
+	in.Ghost["xmlpartial.n"] = n + 1
+	fill := func(p *Ptr, FT types.Type, prefix string) {
+		for _, f := range structFields(FT) {
+			if b := basicOf(f.Type); b != nil && b.Info()&types.IsString != 0 && f.Kind != "xmlname" {
+				name := fmt.Sprintf("%s.%d", prefix, f.Index)
+				v := smt.NewVar(symName(in.fresh(name)), smt.KStr, 0)
+				in.store(p.extend(f.Index), v)
+			}
+		}
+	}
+	fill(tp, T, fmt.Sprintf("xmlpartial.%d", n))
+	for _, f := range structFields(T) {
+		pt, ok := f.Type.Underlying().(*types.Pointer)
+		if !ok {
+			continue
+		}
+		if _, isStruct := pt.Elem().Underlying().(*types.Struct); !isStruct || isTimeType(pt.Elem()) {
+			continue
+		}
+		if cur, _ := in.load(tp.extend(f.Index)).(*Ptr); cur != nil {
+			continue
+		}
+		if in.Choose(2) == 1 {
+			o := in.newObject(pt.Elem(), zeroValue(pt.Elem()), "xml-partial")
+			np := &Ptr{Obj: o}
+			fill(np, pt.Elem(), fmt.Sprintf("xmlpartial.%d.%d", n, f.Index))
+			in.store(tp.extend(f.Index), np)
+			in.Ghost["choice:xmlpartial.leak"] = 1
+			in.event("xml.Unmarshal failed after allocating field %d", f.Index)
+		}
+	}
 }
 
 func (in *Interp) lookupMethodByName(t types.Type, name string) *ssa.Function {
